@@ -31,8 +31,14 @@ func TestC08(t *testing.T) {
 				cfg = GenLimitCfg(r, kind, 0)
 				cfg.P[3] = FBits(1.0)
 			}
+			atCeiling := false
 			if kind == 1 && r.Bool(10) && !forceDir {
 				cfg.P[0], cfg.P[1] = 50, 20 // initial above max: known finding F18
+			} else if kind == 1 && r.Bool(8) && !forceDir && cfg.Wrapper == 0 {
+				// built exactly at its ceiling, judged from there (known finding F24 lives here; anything else at the ceiling is reported)
+				m := r.Pick(3, 12, 20, 24, 48, 100, 250)
+				cfg.P[0], cfg.P[1], cfg.P[2] = m, m, 1<<20
+				atCeiling = true
 			}
 			seed := int64(r.U64() >> 1)
 			// prefix generated against a scout instance
@@ -45,6 +51,13 @@ func TestC08(t *testing.T) {
 			st.EdgePct = 1
 			var prefix []sm
 			n := r.Intn(Scale(80, 250))
+			if atCeiling {
+				n = 0
+				scout.Now += 1000
+				x := sm{scout.Now, st.base, cfg.P[0], false} // the sample that sets the baseline
+				prefix = append(prefix, x)
+				scout.OnSample(x.start, x.rtt, x.inf, x.drop)
+			}
 			// Gradient2 in its warm-up: k equal samples, then a pair whose higher RTT is exactly twice the long-term average that includes it
 			// (the knee of max(1/2, min(1, long/short))) - the boundary value itself must behave like its neighbours
 			g2k, g2b := int64(0), int64(0)
